@@ -6,6 +6,20 @@ from ..facts import op_place
 def assumptions_overwritten(led, rid, ctx):
     """every solve starts from exactly the assumptions it was given (DESIGN §4-C05 A3)"""
     lib = ctx.lib
+    # WHO-MAY-CALL: the search is only entered after `initialise` installed this call's assumptions
+    n_entries = 0
+    for g in lib.fns.values():
+        if "/tests" in g.file or g.name == "solve_internal":
+            continue
+        for c in g.calls_named("solve_internal"):
+            n_entries += 1
+            inits = g.calls_named("initialise")
+            ok = any(g.cfg.dominates(i.bb, c.bb) for i in inits)
+            led.check(ok, rid, "%s:initialise-before-search" % g.name, c.span, "initialise dominates solve_internal",
+                      "%s enters the search (solve_internal) without a preceding initialise(assumptions): the "
+                      "assumptions stored by an earlier call are posted again as if they belonged to the model"
+                      % g.name)
+    led.floor(rid, "entries into solve_internal", n_entries, 1)
     f = lib.method("ConstraintSatisfactionSolver", "initialise")
     R = resolver(f)
     cfg = f.cfg
